@@ -69,6 +69,11 @@ type pipe struct {
 	wtimer *time.Timer
 	rtimer *time.Timer
 
+	// deadline generations: a timer that already fired cannot be stopped any more, its function
+	// must not report a timeout for a deadline that has been replaced or cleared in the meantime
+	wgen uint64
+	rgen uint64
+
 	closed      bool
 	writeClosed bool
 }
@@ -220,10 +225,15 @@ func (c *conn) SetReadDeadline(t time.Time) error {
 	defer p.mu.Unlock()
 	p.rtimer.Stop()
 	p.rtimedout = false
+	p.rgen++
 	if !t.IsZero() {
+		gen := p.rgen
 		p.rtimer = time.AfterFunc(time.Until(t), func() {
 			p.mu.Lock()
 			defer p.mu.Unlock()
+			if p.rgen != gen {
+				return
+			}
 			p.rtimedout = true
 			p.rwait.Broadcast()
 		})
@@ -237,10 +247,15 @@ func (c *conn) SetWriteDeadline(t time.Time) error {
 	defer p.mu.Unlock()
 	p.wtimer.Stop()
 	p.wtimedout = false
+	p.wgen++
 	if !t.IsZero() {
+		gen := p.wgen
 		p.wtimer = time.AfterFunc(time.Until(t), func() {
 			p.mu.Lock()
 			defer p.mu.Unlock()
+			if p.wgen != gen {
+				return
+			}
 			p.wtimedout = true
 			p.wwait.Broadcast()
 		})
